@@ -1,6 +1,6 @@
 (* C12: machine-checked counterexamples. Each hypothesis that sets a class of inputs aside in the C12 theorems is
    shown necessary on the faithful model: without it the statement is false (the witnesses are replayed on the real
-   code by the harness, classes .boolpad .zzrep .emap). Also: the differences between the specification and the
+   code by the harness, classes .zzrep .emap). Also: the differences between the specification and the
    package dialect that are outside the property (over-wide 32-bit varints, packed repeated scalars). *)
 From Coq Require Import ZArith List Bool Lia.
 From Verif Require Import Base.GoInt Proto.Ext Generated.ProtoGen Proto.Model Proto.PrimSpec Proto.Spec Proto.WireSpec.
@@ -9,7 +9,7 @@ Open Scope Z_scope.
 
 Ltac universe := unfold in_universe; repeat split; try reflexivity; vm_compute; congruence.
 
-(* ---------- (b) without the restriction on padded bools ---------- *)
+(* ---------- a bool written on two bytes: read by the repaired decodeBool, rejected by the package before ---------- *)
 Definition t_bool : gty := TStruct [GField true None TBool].
 (* field 1 = true, the varint 1 written on two bytes: 08 81 00 *)
 Lemma bool_padded_legal : reencodes true (fields_of t_bool) [FOne (PVBool true)] [8; 129; 0].
@@ -21,18 +21,13 @@ Proof.
   - constructor; [|constructor]. cbn. unfold leb_ok. repeat split; try lia; vm_compute; congruence.
   - reflexivity.
 Qed.
-Lemma unmarshal_reencoded_refuted : ~ unmarshal_reencoded_statement true.
-Proof.
-  intros H.
-  destruct (H t_bool [FOne (PVBool true)] [8; 129; 0]) as (fuel & r & v0 & Hu & _); try reflexivity.
-  - exact bool_padded_legal.
-  - destruct fuel as [|[|[|[|f]]]]; vm_compute in Hu; discriminate Hu.
-Qed.
-(* the specification reads it as true; the package reports an error, whatever the fuel *)
 Lemma bool_padded_std : spec_decode std (fields_of t_bool) [8; 129; 0] = Some [FOne (PVBool true)].
 Proof. vm_compute. reflexivity. Qed.
-Lemma bool_padded_pkg : forall fuel, Unmarshal fuel t_bool [8; 129; 0] (zero_val t_bool) <> Ok (Some (VStruct [VBool true])).
-Proof. intros fuel H. destruct fuel as [|[|[|[|f]]]]; vm_compute in H; discriminate H. Qed.
+Lemma bool_padded_pkg : Unmarshal 10 t_bool [8; 129; 0] (zero_val t_bool) = Ok (Some (VStruct [VBool true])).
+Proof. vm_compute. reflexivity. Qed.
+(* the dialect of the package before the repair (decodeBool looked at one byte) rejected it *)
+Lemma bool_padded_old_dialect : spec_decode pkgd_old (fields_of t_bool) [8; 129; 0] = None.
+Proof. vm_compute. reflexivity. Qed.
 
 (* ---------- (a) without tags_sane: zigzag or fixed variant on a repeated field ---------- *)
 Definition marshal_standard_gen (extra : gty -> val -> Prop) : Prop :=
